@@ -22,12 +22,14 @@ def check():
     tier, seed = r["tier"], r["seed"]
     cuts = rejected = loaded = wtried = wrep = progs = nbytes = 0
     store_nil = []
+    cut_differs = []
     for b in r["results"]:
         st = b["stats"]
         if b["profile"].startswith("grb:"):
             cuts += st["cuts_tried"]; rejected += st["cuts_rejected"]; loaded += st["cuts_loaded"]
             wtried += st["writer_faults_tried"]; wrep += st["writer_faults_reported"]; progs += st["programs"]; nbytes += st["stream_bytes"]
             store_nil += st["store_nil"]
+            cut_differs += st["cut_differs"]
     gh = r["gh"]
     for k, rec in enumerate(store_nil[:3]):
         d = os.path.join(scratch(), "wf%d" % k)
@@ -47,6 +49,22 @@ def check():
         print("VIOLATION property=C12 replay=%s" % path)
         print("  store reported success although the writer failed at call %d" % rec["failAt"])
         break
+    for k, rec in enumerate(cut_differs[:2]):
+        d = os.path.join(scratch(), "cut%d" % k)
+        os.makedirs(d, exist_ok=True)
+        json.dump(rec, open(os.path.join(d, "cut.json"), "w"))
+        p = run([gh, "grb-cut-replay", "-in", "cut.json"], cwd=d)
+        if json.loads(p.stdout.split("STATS ", 1)[1])["cut_differs_count"] == 0:
+            r["unreproduced"] += 1
+            continue
+        r["violations"] += 1
+        os.makedirs(os.path.join(VERIF, "replays"), exist_ok=True)
+        path = os.path.join(VERIF, "replays", "C12-%s-%d-cut%d.json" % (tier, seed, k + 1))
+        json.dump({"property": "C12", "kind": "grb-cut", "fault": rec, "what": "the stream cut at byte %d of %d loads without error into a knowledge base "
+                   "that is not the stored one (Catalog.Equals)" % (rec["cut"], rec["of"]), "how": "./check replay " + path}, open(path, "w"), indent=1)
+        print("VIOLATION property=C12 replay=%s" % path)
+        print("  stream cut at byte %d of %d loaded without error, but not into the stored knowledge base" % (rec["cut"], rec["of"]))
+        break
     lib = library_family.check("C12")
     r["violations"] += lib["violations"]
     r["unreproduced"] += lib["unreproduced"]
@@ -63,6 +81,20 @@ def check():
     cov["samples"] = cov["samples"][:2] + lib["cov"]["samples"][:1]
     r["own_marks"] = 1 if cuts and wtried else 0
     return engine_family.finish("C12", r)
+
+
+def replay_cut(path):
+    rec = json.load(open(path))
+    gh = build_harness()
+    d = os.path.join(scratch(), "cutreplay")
+    os.makedirs(d, exist_ok=True)
+    json.dump(rec["fault"], open(os.path.join(d, "cut.json"), "w"))
+    p = run([gh, "grb-cut-replay", "-in", "cut.json"], cwd=d)
+    if json.loads(p.stdout.split("STATS ", 1)[1])["cut_differs_count"]:
+        print("VIOLATION property=C12 replay=%s" % path)
+        return 1
+    print("not reproduced on the current tree")
+    return 0
 
 
 def replay_writer(path):
